@@ -78,6 +78,17 @@ func forEachEngineProgram(r *harness.Run, plans []famPlan, c03MaxN int, f func(w
 	}
 }
 
+// liftPlans: the bounds at which the lifted properties (C12, C13, C15, C16, C17, C19 over the control-flow families)
+// enumerate the families: the quick engine bounds in the quick tier, one level above them in the thorough tier (the
+// lifts multiply every program by several compilations).
+func liftPlans(tier string) ([]famPlan, int) {
+	fams := c01Families()
+	if tier == "thorough" {
+		return []famPlan{{fams[0], 4}, {fams[1], 5}, {fams[2], 5}, {fams[3], 5}}, 4
+	}
+	return enginePlans("quick")
+}
+
 func enginePlans(tier string) ([]famPlan, int) {
 	fams := c01Families()
 	if tier == "thorough" {
